@@ -41,6 +41,34 @@ CLAIMED = {
              "crash before each of its mutating calls with marks kept or individually lost (the exemption for lost marks is computed by the crash model, not by the harness).",
         note="as C03",
         design="5 C04"),
+    "C08": dict(
+        technique="TLA+ transcription of qmail-smtpd's session logic checked by TLC against a reply-driven transaction/relay-policy monitor for every command sequence up to a bound x configurations + TLC validation of tens of thousands of real interactive and pipelined qmail-smtpd sessions",
+        text="SmtpSession.tla states the property over (command, reply class, envelope submitted) with abstract addresses and configurations; SmtpModel.tla checks the transcribed "
+             "session logic against it exhaustively. Every real session (all sequences up to length 3 over 25 commands, seeded longer ones under 8 configurations, arguments rendered "
+             "in many forms, CRLF/LF, replayed pipelined; morercpthosts.cdb built by the real qmail-newmrh; envelope captured by the QMAILQUEUE stand-in) is folded through the same monitor by TLC.",
+        note="the mailbox an argument denotes is known by construction (rendering is harness code; the inverse parse is C17); 900+ byte addresses count as over the limit",
+        design="5 C08"),
+    "C09": dict(
+        technique="TLA+ transcription of qmail-remote smtp() and qmail-rspawn report() checked by TLC against reference verdict sets for every server script / every exit-status x output combination + TLC validation of real qmail-remote runs against a scripted SMTP server and real qmail-rspawn runs with a scripted QMAILREMOTE",
+        text="Remote.tla gives, per server script over reply classes, the set of results the statement allows (odd <400 replies may be read either way); RemoteModel.tla and FoldModel.tla "
+             "check the transcriptions for every script / output. The real qmail-remote is run against a scripted server for every script (boundary codes 399/400/499/500/599, multi-line "
+             "replies, disconnects, stalls, no listener), the real qmail-rspawn relays every stand-in result; all records are judged by TLC.",
+        note="replies outside 2xx-5xx and per-line differing codes are not generated; the possible-duplicate flag is observed as text",
+        design="5 C09"),
+    "C10": dict(
+        technique="TLA+ declarative Route/SenderAdd from the documents vs. branch-by-branch transcription of getcontrols/rewrite/senderadd/todo_do checked by TLC + TLC validation of recipient lists and delivery commands produced by the real qmail-queue/qmail-send/qmail-clean (and a function seam) over generated configurations, with HUP histories",
+        text="Rewrite.tla defines Route, MsgVerdict, SenderAdd and Effective (controls as of start / last HUP); RewriteSend.tla transcribes the code and is checked over ~30k configurations x "
+             "envelopes x edits with every branch action covered. The real daemon is played in parallel sandboxes (qmail-start plumbing), messages are injected by the real qmail-queue, "
+             "local/remote lists and delivery commands are read back; ~400k recipient evaluations per quick run are judged by TLC.",
+        note="percent hack with an @ inside the would-be domain left open between three readings; duplicate control keys outside the domain (as the property says)",
+        design="5 C10"),
+    "C11": dict(
+        technique="TLA+ declarative Assign/GetPw/identity monitors vs. step transcription of qmail-newu, nughde_get/spawn and qmail-getpw checked by TLC + TLC validation of deliveries through the real qmail-newu/qmail-lspawn/qmail-getpw under the shim (generated passwd db, setgroups/setgid/setuid/exec trace, damaged cdb files)",
+        text="Users.tla is the documents' reading; UsersLspawn.tla transcribes the code one action per key tried / identity call, with branch coverage enforced and the as-found qmail-newu variant "
+             "required to fail. 20k deliveries per quick run (tables, passwd databases, home ownership, hash-colliding keys, every truncation / redirected pointer of users/cdb, lookup errors) "
+             "run through the real programs with a stand-in qmail-local that dumps argv and ids; every record is judged by TLC.",
+        note="cdb hash arithmetic bound only as a black-box map (32-bit TLC integers); arbitrary pointer overwrites only required to never run as root / never bounce",
+        design="5 C11"),
     "C12": dict(
         technique="TLA+ models of the maildir writer (call order as data, Kill/Crash/Lose/fault) and of the mbox appender (1-3 deliverers, all interleavings) checked by TLC + TLC validation of gated/faulted runs of the real qmail-local; call order of the real build lifted into the model",
         text="MailStore.tla states what may be visible in new/ and what the mbox(5) reader must read back; Maildir.tla/Mbox.tla are explored exhaustively (wrong variants of "
@@ -55,6 +83,13 @@ CLAIMED = {
              "homes with probe programs and the recording QMAILQUEUE; every run is a record judged by TLC with the same Judge.",
         note="group-writable homes/files, sticky under -n and non-+list '+' lines are left unconstrained (documents and shipped conf-patrn differ or are silent)",
         design="5 C13"),
+    "C14": dict(
+        technique="TLC model check of the transcribed addbounce() sanitiser against a paragraph monitor for every failure text up to a bound + the queue-manager model/monitor (bounce chain) + TLC trace validation of bounce histories on the real qmail-send/qmail-queue with hostile report texts, all sender forms and bounce controls",
+        text="Bounce.tla defines paragraphs of a notice and NoticeVerdict (exactly one '<rcpt>:' paragraph per failed recipient) and is checked for every text over a hostile alphabet; "
+             "the C14 clauses of QSendMon (envelope of bounce / double bounce, record -> notice queued -> record removed, discard only of a failing double bounce, no foreign or duplicate "
+             "names) are evaluated on histories of the real daemon in which the bytes of every queued notice are judged by the same operator.",
+        note="a forged '--- Below this line' separator is outside the statement and not generated; both spellings of a virtual-domain recipient accepted",
+        design="5 C14"),
     "C15": dict(
         technique="TLC model check of the transcribed square-root loop, back-off formula and array heap + TLC validation of records from the real squareroot()/nextretry()/prioq.c (seam), C sweep of the post-condition over the 2^32 domain",
         text="TLC proves on the complete domain of a scaled loop that the shift-and-subtract algorithm is the floor square root, that the back-off time is "
@@ -62,6 +97,13 @@ CLAIMED = {
              "(square boundaries, seeded grids, every operation sequence of the model's domain, long random ones) are records judged by TLC.",
         note="function-level seams as in tests/; 32-bit TLC integers: ages >= 2^31 only in the C sweep; daemon-level retry histories (virtual clock) are added by the queue-manager controller",
         design="5 C15"),
+    "C17": dict(
+        technique="TLA+ RFC 822/821 readers and documented rewriting vs. transcriptions of quote.c/token822.c/addrparse/rwgeneric/qmail-inject field logic checked by TLC (three models) + TLC validation of 45k real qmail-inject / qmail-remote -> qmail-smtpd round trips and generated header lists",
+        text="Addr.tla holds the documents' side and the transcriptions; AddrQuote (every local part over 21 byte classes up to length 4/5), AddrList (addrlist stepped per token over an abstract "
+             "list grammar with expected mailboxes known by construction) and AddrInject (fields x strategies x arguments) are checked by TLC. Real code at binary level: qmail-inject -a/-n/-h/-H/-f "
+             "with QMAILINJECT flags and the recording QMAILQUEUE, qmail-remote to a scripted server to the real qmail-smtpd; every record judged by TLC.",
+        note="the byte rendering of generated headers is harness code (~150 lines); NUL/LF in local parts excluded by the statement; two known findings (comments inside <...>)",
+        design="5 C17"),
     "C18": dict(
         technique="TLA+ monitors for the cleaner and spawner request grammars, TLC model check of the transcribed request check, TLC validation of shim-recorded unlink/open/exec/status events of the real qmail-clean and qmail-rspawn",
         text="TLC checks the transcription of qmail-clean's request check against the monitor CleanVerdict for every request of a bounded domain; the real "
